@@ -13,6 +13,8 @@ pub const CAP: usize = 8;
 pub static mut LIMIT: usize = CAP;
 pub fn set_limit(n: usize) {
     unsafe { LIMIT = if n < CAP { n } else { CAP } }
+    // one codec table entry per stored frame version (+1 for an overwrite)
+    crate::env::json::set_limit(n + 1);
 }
 pub const NPART: usize = 3;
 pub const ALIVE: u32 = u32::MAX;
@@ -77,6 +79,7 @@ pub fn reset() {
         ST.opened = 0;
         ST.snapshot_iters = true;
         LIMIT = CAP;
+        NITERS = 0;
     }
 }
 #[allow(static_mut_refs)]
@@ -356,7 +359,9 @@ fn conv<K: AsRef<[u8]>>(b: Bound<&K>) -> Bnd {
     }
 }
 
-pub struct Iter {
+/// iterator state lives in a static pool (the real code boxes its iterators: a big struct on
+/// the heap is what CBMC handles worst); the value handed to the real code is a handle
+pub struct IterState {
     pid: u8,
     lo: Bnd,
     hi: Bnd,
@@ -372,7 +377,14 @@ pub struct Iter {
     /// emissions the iterator is exhausted (keeps `for`/`find_map` loops over it bounded)
     calls: usize,
 }
-impl Iter {
+const IT0: IterState = IterState { pid: 0, lo: UNB, hi: UNB, prefix: UNB, snap: false, snap_seq: 0, fcur: UNB, bcur: UNB, calls: 0 };
+pub const NIT: usize = 16;
+pub static mut ITERS: [IterState; NIT] = [IT0; NIT];
+pub static mut NITERS: usize = 0;
+pub struct Iter {
+    ix: usize,
+}
+impl IterState {
     #[allow(static_mut_refs)]
     fn visible(&self, s: &Slot) -> bool {
         if !s.used {
@@ -466,27 +478,64 @@ pub fn val_vec(vlen: usize, val: &[u8; 2]) -> Vec<u8> {
     v.truncate(vlen);
     v
 }
+impl Iter {
+    /// Iterators are used LIFO by the real code (one scan at a time, lookups inside a scan are
+    /// not iterators): the state of the innermost live iterator sits at the concrete top of the
+    /// stack, so the boxed (opaque) handle never indexes anything.
+    #[allow(static_mut_refs)]
+    fn st(&self) -> &'static mut IterState {
+        unsafe {
+            let top = if NITERS > 0 { NITERS - 1 } else { 0 };
+            if self.ix != top {
+                nd::bound_exceeded("a model iterator other than the innermost live one was advanced");
+            }
+            &mut ITERS[top]
+        }
+    }
+}
+impl Drop for Iter {
+    #[allow(static_mut_refs)]
+    fn drop(&mut self) {
+        unsafe {
+            if NITERS > 0 {
+                NITERS -= 1;
+            }
+        }
+    }
+}
 impl Iterator for Iter {
     type Item = Result<KvPair>;
     fn next(&mut self) -> Option<Self::Item> {
-        let (k, kv) = self.select(true)?;
-        self.fcur = Bnd { kind: 1, key: k };
+        let st = self.st();
+        let (k, kv) = st.select(true)?;
+        st.fcur = Bnd { kind: 1, key: k };
         Some(Ok(kv))
     }
 }
 impl DoubleEndedIterator for Iter {
     fn next_back(&mut self) -> Option<Self::Item> {
-        let (k, kv) = self.select(false)?;
-        self.bcur = Bnd { kind: 1, key: k };
+        let st = self.st();
+        let (k, kv) = st.select(false)?;
+        st.bcur = Bnd { kind: 1, key: k };
         Some(Ok(kv))
     }
 }
 
 impl PartitionHandle {
     #[allow(static_mut_refs)]
+    #[allow(static_mut_refs)]
     fn mk_iter(&self, lo: Bnd, hi: Bnd, prefix: Bnd) -> Iter {
-        let (snap, snap_seq) = unsafe { (ST.snapshot_iters, ST.seq) };
-        Iter { pid: self.pid, lo, hi, prefix, snap, snap_seq, fcur: UNB, bcur: UNB, calls: 0 }
+        unsafe {
+            let (snap, snap_seq) = (ST.snapshot_iters, ST.seq);
+            if NITERS >= NIT {
+                nd::bound_exceeded("iterator pool");
+                return Iter { ix: 0 };
+            }
+            let ix = NITERS;
+            NITERS += 1;
+            ITERS[ix] = IterState { pid: self.pid, lo, hi, prefix, snap, snap_seq, fcur: UNB, bcur: UNB, calls: 0 };
+            Iter { ix }
+        }
     }
     pub fn range<K: AsRef<[u8]>, R: RangeBounds<K>>(&self, r: R) -> Iter {
         self.mk_iter(conv(r.start_bound()), conv(r.end_bound()), UNB)
